@@ -999,13 +999,38 @@ def pch_flags():
     return flags
 
 
+_stamp = {}
+
+
+def mfront_stamp():
+    """identity of the mfront that generates the sources (executable + libTFELMFront: path, size, mtime);
+    work directories that survive between runs (replays) are regenerated when it changes"""
+    import verifpy as V
+    if "s" not in _stamp:
+        b = os.environ.get("VERIF_MFRONT_BUILD") or V.BUILD
+        parts = []
+        for p in (os.path.join(b, "mfront", "src", "mfront"), os.path.join(b, "mfront", "src", "libTFELMFront.so")):
+            try:
+                st = os.stat(p)
+                parts.append("%s %d %d" % (os.path.realpath(p), st.st_size, st.st_mtime_ns))
+            except OSError:
+                parts.append(p + " ?")
+        _stamp["s"] = "\n".join(parts)
+    return _stamp["s"]
+
+
 def generate(P, root):
     """writes the mfront file and runs mfront; returns (workdir, error or None)"""
     import verifpy as V
     wd = os.path.join(root, P.law)
     ok = os.path.join(wd, ".generated")
-    if os.path.exists(ok):
+    stamp = mfront_stamp()
+    if os.path.exists(ok) and open(ok).read() == stamp:
         return wd, None
+    if os.path.isdir(os.path.join(wd, "src")):  # generated by another mfront (rebuilt tree): start again
+        import shutil
+        shutil.rmtree(os.path.join(wd, "src"), ignore_errors=True)
+        shutil.rmtree(os.path.join(wd, "include"), ignore_errors=True)
     os.makedirs(wd, exist_ok=True)
     src = os.path.join(wd, P.law + ".mfront")
     with open(src, "w") as f:
@@ -1026,7 +1051,8 @@ def generate(P, root):
         return wd, "mfront failed (rc=%d): %s" % (rc, (so + se)[-1500:])
     with open(os.path.join(wd, "src", "verif_cxx_wrapper.cxx"), "w") as f:
         f.write(P.wrapper_text())
-    open(ok, "w").close()
+    with open(ok, "w") as f:
+        f.write(stamp)
     return wd, None
 
 
@@ -1090,7 +1116,8 @@ def build_budgeted(P, root, budget):
     """build(), but once a failure has been seen only `budget` programs that are not in the
     cache are still built (the others are rejected), which bounds the time spent shrinking"""
     wd = os.path.join(root, P.law)
-    cached = os.path.exists(os.path.join(wd, ".generated")) and all(
+    gen = os.path.join(wd, ".generated")
+    cached = os.path.exists(gen) and open(gen).read() == mfront_stamp() and all(
         os.path.exists(os.path.join(wd, "src", "lib%s_%s.so" % (P.fname, i))) for i in IFACES)
     if not cached and SHRINK["failed"]:
         if SHRINK["builds"] >= budget:
